@@ -196,6 +196,59 @@ def check_name_clashes(acc: Acc, ctx: Ctx) -> None:
         acc.violate("value", {"family": "variables"}, case, 6.0, got, "a Function without an engine mis-evaluates x * k")
 
 
+def check_construction_paths(acc: Acc, ctx: Ctx) -> None:
+    """`variables resolve to the engine's current input/output values` for Function terms of INPUT and OUTPUT variables of
+    engines obtained through every construction path (constructor, FLL import, copy, Python export)."""
+    def make():
+        return fl.Engine(
+            "paths",
+            input_variables=[fl.InputVariable("a", minimum=-10.0, maximum=10.0, terms=[fl.Function("fa", "2.000 * b + x")]),
+                             fl.InputVariable("b", minimum=-10.0, maximum=10.0, terms=[fl.Function("fb", "a ^ 2.000 - o")])],
+            output_variables=[fl.OutputVariable("o", minimum=-10.0, maximum=10.0, terms=[fl.Function("fo", "a + b * x")])])
+
+    def python_rebuilt():
+        ns: dict = {}
+        exec(fl.representation.import_statement(), ns)  # noqa: S102
+        return eval(repr(make()), ns)  # noqa: S307
+
+    paths = {
+        "constructor": make,
+        "fll-import": lambda: fl.FllImporter().from_string(fl.FllExporter().to_string(make())),
+        "copy": lambda: make().copy(),
+        "copy-of-import": lambda: fl.FllImporter().from_string(fl.FllExporter().to_string(make())).copy(),
+        "python-export": python_rebuilt,
+        "terms-added-later": lambda: _added_later(),
+    }
+
+    def _added_later():
+        e = fl.Engine("paths", input_variables=[fl.InputVariable("a", minimum=-10.0, maximum=10.0), fl.InputVariable("b", minimum=-10.0, maximum=10.0)],
+                      output_variables=[fl.OutputVariable("o", minimum=-10.0, maximum=10.0)])
+        e.input_variables[0].terms.append(fl.Function.create("fa", "2.000 * b + x", e))
+        e.input_variables[1].terms.append(fl.Function.create("fb", "a ^ 2.000 - o", e))
+        e.output_variables[0].terms.append(fl.Function.create("fo", "a + b * x", e))
+        return e
+
+    for name, build in paths.items():
+        case = {"formula": "2.000 * b + x", "family": "paths", "path": name}
+        acc.case(("paths", name), nontrivial=True)
+        try:
+            e = build()
+            for a, b, o, x in ((0.5, 2.0, 1.0, 3.0), (1.0, -1.0, 0.25, 3.0), (np.array([0.5, 1.0]), np.array([2.0, -1.0]), 1.0, 3.0)):
+                e.input_variables[0].value, e.input_variables[1].value = a, b
+                e.output_variables[0].value = o
+                want = {"fa": 2.0 * np.asarray(b) + x, "fb": np.asarray(a) ** 2.0 - o, "fo": np.asarray(a) + np.asarray(b) * x}
+                for v in e.variables:
+                    for t in v.terms:
+                        got = np.asarray(t.membership(x), dtype=float)
+                        acc.transitions += 1
+                        if got.shape != np.shape(want[t.name]) or not np.array_equal(got, want[t.name]):
+                            acc.violate("engine-variables", {"path": name, "variable": v.name}, case, np.asarray(want[t.name]).tolist(), got.tolist(),
+                                        f"[{name}] term {t.name} of {v.name} evaluates to {got.tolist()} with a={a}, b={b}, o={o}, x={x}; expected {np.asarray(want[t.name]).tolist()}")
+        except Exception as ex:  # noqa: BLE001
+            acc.violate("engine-variables", {"path": name, "error": type(ex).__name__}, case, "values", f"{type(ex).__name__}: {ex}",
+                        f"[{name}] a Function term that names engine variables cannot be evaluated: {type(ex).__name__}: {str(ex)[:100]}")
+
+
 def ill_formed_variants(toks: list[str]):
     for i, t in enumerate(toks):
         is_operand = t not in F.PREC and t not in ("(", ")", ",") and (t not in F.ARITY or F.ARITY[t] == 0)
@@ -333,6 +386,7 @@ def run_shard(tier: str, seed: int, shard):
     if shard == ("c", 0, 2):
         acc.guard({"formula": "y ^ k", "family": "variables"}, check_own_variables, acc, ctx)
         acc.guard({"formula": "x + i", "family": "variables"}, check_name_clashes, acc, ctx)
+        acc.guard({"formula": "2.000 * b + x", "family": "paths"}, check_construction_paths, acc, ctx)
     if shard == ("d", 0, 8):
         toks = ["x", "-", "2.000", "^", ".-", "y", "^", "0.500", "%", "i"]
         t = F.parse(toks)
@@ -379,6 +433,9 @@ def replay(case: dict):
             pass
         except Exception as ex:  # noqa: BLE001
             acc.violate("ill-formed-internal-error", {"error": type(ex).__name__}, case, "SyntaxError", repr(ex), "internal")
+        return acc.violations
+    if case.get("family") == "paths":
+        acc.guard(case, check_construction_paths, acc, ctx)
         return acc.violations
     toks = case["tokens"]
     tree = F.parse(toks)
